@@ -47,6 +47,9 @@ TRUSTED = [
     "scikit-learn's own BaseEstimator.get_params/set_params/clone are modelled (Model.v) and tied by "
     "correspondence only; scikit-learn constructors are assumed to store keyword arguments verbatim",
     "keys are modelled as paths: the harness encoder splits 'a__b' on '__' (str.partition chain)",
+    "props/c04.py driver_init: np.math alias, scikit-learn 0.24's _check_weights restored verbatim, "
+    "sktime.distances.elastic_cython replaced by a squared-Euclidean stand-in (distance VALUES are "
+    "irrelevant to C04) - only in the driver processes of C04",
 ]
 MODELLED = [
     "object identity / aliasing: the model is a value tree (clone_est is provably the identity on "
@@ -70,9 +73,11 @@ NOT_RUNNABLE = [
     "pmdarima / tbats / fbprophet / hcrystalball / tsfresh / stumpy / catch22 not installed: ARIMA, "
     "AutoARIMA, BATS, TBATS, Prophet, HCrystalBallForecaster, TSFresh*, MatrixProfileTransformer, "
     "Catch22, CanonicalIntervalForest, DrCIF (static only)",
-    "sklearn 1.7 removed sklearn.neighbors._base._check_weights: KNeighborsTimeSeriesClassifier, "
-    "ElasticEnsemble, ProximityForest/Tree/Stump, ShapeDTW, BagOfPatterns, _CachedTransformer "
-    "(static only)",
+    "KNeighborsTimeSeriesClassifier, ElasticEnsemble, ShapeDTW: importable and constructible through "
+    "the stand-ins of driver_init (np.math, scikit-learn 0.24's _check_weights, a squared-Euclidean "
+    "stand-in for the unbuilt Cython distances) but their fit cannot run under scikit-learn 1.7 "
+    "(constructor / parameter / before-fit cases only); ProximityForest/Tree/Stump and "
+    "_CachedTransformer run fully with the stand-in distances",
     "sklearn 1.7 forests have no base_estimator=: TimeSeriesForest*, RISE, STSF, RotationForest*, "
     "ComposableTimeSeriesForest* (static only)",
     "mrseql extension not built: ROCKETClassifier, HIVECOTEV1, Catch22ForestClassifier (static only)",
@@ -939,7 +944,10 @@ def _run_p_fit(case, cls):
         return {"skip": "constructor raised %s" % type(e).__name__}
     if not hasattr(est, "is_fitted"):
         return {"skip": "no fitted state"}
-    before = est.get_params(deep=False)
+    try:
+        before = est.get_params(deep=False)
+    except Exception as e:
+        return {"skip": "get_params raises %s (reported by the 'get' aspect of p_params)" % type(e).__name__}
     try:
         snap = copy.deepcopy(before)
     except Exception:
